@@ -20,6 +20,8 @@ EMPH = ["QF_LIA", "QF_UFLIA", "QF_UFLRA", "QF_AX", "QF_ALIA", "QF_ALRA", "QF_AUF
 
 def generate(rnd, tier):
     keys = EMPH if rnd.random() < 0.7 else None
+    if rnd.random() < 0.4:
+        keys = ["QF_AX", "QF_ALIA", "QF_ALRA", "QF_AUFLIA", "QF_AUFLRA"]
     script, _, _ = gen.gen_script(rnd, tier, logic_keys=keys, planted_p=0.75, queries=False, dense_p=0.45)
     return script
 
